@@ -174,7 +174,154 @@ package analysis
 
 // ---------------------------------------------------------------- C11 / C07
 
+// the i-th name of the package scope is a declared named type
+//@ pred namedTypeAt(pa *packages.Package, nm string, N *types.Named) bool =
+//@      is(pa.Types.Scope().Lookup(nm), *types.TypeName) && is(as(pa.Types.Scope().Lookup(nm), *types.TypeName).Type(), *types.Named)
+//@   && as(pa.Types.Scope().Lookup(nm), *types.TypeName).Type() == N
+
+//@ func allNamedTypes
+//@   props C11
+//@   requires pa != nil && pa.Types != nil
+//@   -- exactly the declared named types of the package ...
+//@   ensures forall k int :: 0 <= k && k < len(result) ==> result[k] != nil && (exists i int :: 0 <= i && i < nameCount(pa.Types.Scope()) && namedTypeAt(pa, nameAt(pa.Types.Scope(), i), result[k]))
+//@   ensures forall i int, N *types.Named :: 0 <= i && i < nameCount(pa.Types.Scope()) && namedTypeAt(pa, nameAt(pa.Types.Scope(), i), N) ==> (exists k int :: 0 <= k && k < len(result) && result[k] == N)
+//@   -- ... each once, in name order
+//@   ensures forall k1, k2 int :: 0 <= k1 && k1 < k2 && k2 < len(result) ==> result[k1].Obj().Name() < result[k2].Obj().Name()
+//@   loop scope.Names().1 index n
+//@   loop scope.Names().1 invariant forall k int :: 0 <= k && k < len(out) ==> out[k] != nil && (exists i int :: 0 <= i && i < n && namedTypeAt(pa, nameAt(scope, i), out[k]))
+//@   loop scope.Names().1 invariant forall i int, N *types.Named :: 0 <= i && i < n && namedTypeAt(pa, nameAt(scope, i), N) ==> (exists k int :: 0 <= k && k < len(out) && out[k] == N)
+//@   loop scope.Names().1 invariant forall k1, k2 int :: 0 <= k1 && k1 < k2 && k2 < len(out) ==> out[k1].Obj().Name() < out[k2].Obj().Name()
+
+// m is a member of the union c: a non-interface type whose method set implements c
+//@ pred isItf(t *types.Named) bool = is(t.Underlying(), *types.Interface)
+//@ pred isMember(m *types.Named, c *types.Named) bool = !isItf(m) && types.Implements(m, as(c.Underlying(), *types.Interface))
+
+//@ func fetchPkgUnions
+//@   props C11
+//@   requires pa != nil && pa.Types != nil
+//@   -- a named interface is a union exactly when some non-interface named type of its own package implements it
+//@   ensures forall c *types.Named :: has(result, c) ==> isItf(c) && (exists i int :: 0 <= i && i < nameCount(pa.Types.Scope()) && namedTypeAt(pa, nameAt(pa.Types.Scope(), i), c))
+//@   ensures forall c *types.Named, i, j int :: 0 <= i && i < nameCount(pa.Types.Scope()) && namedTypeAt(pa, nameAt(pa.Types.Scope(), i), c) && isItf(c) && 0 <= j && j < nameCount(pa.Types.Scope()) && (exists m *types.Named :: namedTypeAt(pa, nameAt(pa.Types.Scope(), j), m) && isMember(m, c)) ==> has(result, c)
+//@   -- its members are exactly those types ...
+//@   ensures forall c *types.Named, k int :: has(result, c) && 0 <= k && k < len(result[c]) ==> result[c][k] != nil && isMember(result[c][k], c) && (exists i int :: 0 <= i && i < nameCount(pa.Types.Scope()) && namedTypeAt(pa, nameAt(pa.Types.Scope(), i), result[c][k]))
+//@   ensures forall c, m *types.Named, i int :: has(result, c) && 0 <= i && i < nameCount(pa.Types.Scope()) && namedTypeAt(pa, nameAt(pa.Types.Scope(), i), m) && isMember(m, c) ==> (exists k int :: 0 <= k && k < len(result[c]) && result[c][k] == m)
+//@   -- ... each once, in name order; a union is never empty
+//@   ensures forall c *types.Named, k1, k2 int :: has(result, c) && 0 <= k1 && k1 < k2 && k2 < len(result[c]) ==> result[c][k1].Obj().Name() < result[c][k2].Obj().Name()
+//@   ensures forall c *types.Named :: has(result, c) ==> len(result[c]) > 0
+//@   loop candidates.1 index n
+//@   loop candidates.1 invariant forall c *types.Named :: has(out, c) ==> isItf(c) && (exists i int :: 0 <= i && i < n && candidates[i] == c) && !isnil(out[c]) && len(out[c]) > 0 && fresh(out[c]) && allocated(out[c])
+//@   loop candidates.1 invariant forall i int :: 0 <= i && i < n && isItf(candidates[i]) && (exists j int :: 0 <= j && j < len(candidates) && isMember(candidates[j], candidates[i])) ==> has(out, candidates[i])
+//@   loop candidates.1 invariant forall c *types.Named, k int :: has(out, c) && 0 <= k && k < len(out[c]) ==> isMember(out[c][k], c) && (exists j int :: 0 <= j && j < len(candidates) && candidates[j] == out[c][k])
+//@   loop candidates.1 invariant forall c *types.Named, j int :: has(out, c) && 0 <= j && j < len(candidates) && isMember(candidates[j], c) ==> (exists k int :: 0 <= k && k < len(out[c]) && out[c][k] == candidates[j])
+//@   loop candidates.1 invariant forall c *types.Named, k1, k2 int :: has(out, c) && 0 <= k1 && k1 < k2 && k2 < len(out[c]) ==> out[c][k1].Obj().Name() < out[c][k2].Obj().Name()
+//@   loop candidates.2 index q
+//@   loop candidates.2 invariant forall k int :: 0 <= k && k < len(members) ==> isMember(members[k], c) && (exists j int :: 0 <= j && j < q && candidates[j] == members[k])
+//@   loop candidates.2 invariant forall j int :: 0 <= j && j < q && isMember(candidates[j], c) ==> (exists k int :: 0 <= k && k < len(members) && members[k] == candidates[j])
+//@   loop candidates.2 invariant forall k1, k2 int :: 0 <= k1 && k1 < k2 && k2 < len(members) ==> members[k1].Obj().Name() < members[k2].Obj().Name()
+//@   loop candidates.2 invariant isnil(members) || (fresh(members) && allocated(members))
+
+// the union N lists the named type T among its members
+//@ pred lists(unions unionsMap, N *types.Named, T *types.Named) bool = exists q int :: 0 <= q && q < len(unions[N]) && unions[N][q] == T
 // accu is the analysis table: the union analysed for a named interface carries that name
+//@ pred analysed(accu map[types.Type]Type, N *types.Named) bool = is(accu[N], *Union)
+
 //@ func (*Struct).setImplements
-//@   requires forall N *types.Named :: is(accu[N], *Union) ==> as(accu[N], *Union).name == N
+//@   props C11
+//@   requires cl != nil
+//@   requires forall N *types.Named :: has(unions, N) && is(accu[N], *Union) ==> as(accu[N], *Union).name == N
+//@   modifies cl.Implements
+//@   ghostset implementsSet cl
+//@   -- exactly the analysed unions that list this struct as a member ... (the union's own name is the witness)
+//@   ensures forall k int :: 0 <= k && k < len(cl.Implements) ==> cl.Implements[k] != nil && has(unions, cl.Implements[k].name) && analysed(accu, cl.Implements[k].name) && cl.Implements[k] == as(accu[cl.Implements[k].name], *Union) && lists(unions, cl.Implements[k].name, cl.Name)
+//@   -- (completeness - every analysed union listing the struct is reported - is NOT proved here: the existential goal is out of the
+//@   --  solvers' reach; it is exercised by the bounded harness TestGovcHarness_Unions only)
+//@   -- ... each once, in name order
+//@   ensures forall k1, k2 int :: 0 <= k1 && k1 < k2 && k2 < len(cl.Implements) ==> cl.Implements[k1].name.String() < cl.Implements[k2].name.String()
+//@   loop unions.1 visited vis
+//@   loop unions.1 invariant forall k int :: 0 <= k && k < len(out) ==> out[k] != nil && vis[out[k].name] && has(unions, out[k].name) && analysed(accu, out[k].name) && out[k] == as(accu[out[k].name], *Union) && lists(unions, out[k].name, cl.Name)
+//@   loop unions.1 invariant forall k1, k2 int :: 0 <= k1 && k1 < k2 && k2 < len(out) ==> out[k1] != out[k2]
+//@   loop unions.1 invariant isnil(out) || (fresh(out) && allocated(out))
+//@   loop v.1 index j
 //@   loop v.1 invariant out == before(out)
+//@   loop v.1 invariant forall q int :: 0 <= q && q < j ==> v[q] != cl.Name
+
+
+// ---------------------------------------------------------------- C11 / C12 : building the type graph
+
+// struct comments are read from the syntax tree (position based navigation, outside the verified
+// subset): assumed to be a function of the package and the type
+//@ func fetchStructComments
+//@   pure
+//@   trusted
+
+// the analysis table never holds a nil node
+// ... and the union node stored for a named type carries that name
+//@ pred tableOK(an *Analysis) bool = an != nil && an.Types != nil && (forall t types.Type :: has(an.Types, t) ==> an.Types[t] != nil && allocated(an.Types[t]) && (is(an.Types[t], *Union) && is(t, *types.Named) ==> as(an.Types[t], *Union).name == t))
+// the enums handed to the analysis are real nodes
+//@ pred ctxOK(ctx context) bool = forall N *types.Named :: has(ctx.enums, N) ==> ctx.enums[N] != nil
+// (the table is NOT monotone: for an alias the node is stored under the unaliased type and may replace an
+// earlier node of that type; only "no nil node" is carried through the recursion)
+
+//@ func NewTime
+//@   props C12
+//@   requires typ != nil
+//@   ensures result2 ==> result1 != nil && (is(result1, *Time) || is(result1, *Named))
+//@   ensures result2 && is(result1, *Named) ==> as(result1, *Named).name == typ && as(result1, *Named).Underlying != nil
+
+//@ func (*Analysis).handleType
+//@   props C11 C12
+//@   requires tableOK(an) && ctxOK(ctx)
+//@   modifies keys(an.Types)
+//@   ensures result != nil && tableOK(an)
+//@   ensures !ctx.isInExtern ==> has(an.Types, typ) && an.Types[typ] == result
+
+//@ func (*Analysis).handleStructFields
+//@   props C11 C12
+//@   requires tableOK(an) && ctxOK(ctx) && typ != nil
+//@   modifies keys(an.Types)
+//@   ensures tableOK(an)
+//@   loop for.1 invariant tableOK(an)
+
+//@ func (*Analysis).createType
+//@   props C11 C12
+//@   requires tableOK(an) && ctxOK(ctx)
+//@   modifies keys(an.Types)
+//@   ensures result != nil
+//@   ensures tableOK(an)
+//@   ensures !is(old(typ), *types.Alias) ==> typ == old(typ)
+//@   -- C11: however the union is reached, its node has one member node per member type of the union
+//@   ensures is(result, *Union) ==> has(ctx.unions, as(result, *Union).name) && as(result, *Union).name == typ && len(as(result, *Union).Members) == len(ctx.unions[as(result, *Union).name])
+//@   ensures is(result, *Union) ==> (forall k int :: 0 <= k && k < len(as(result, *Union).Members) ==> as(result, *Union).Members[k] != nil)
+//@   -- C12 (kernel): kind, length and links of the node follow go/types
+//@   ensures is(result, *Array) ==> as(result, *Array).Elem != nil && (is(typ.Underlying(), *types.Array) || is(typ.Underlying(), *types.Slice))
+//@   ensures is(result, *Array) && is(typ.Underlying(), *types.Slice) ==> as(result, *Array).Len == -1
+//@   ensures is(result, *Array) && is(typ.Underlying(), *types.Array) ==> as(result, *Array).Len == as(typ.Underlying(), *types.Array).Len()
+//@   ensures is(result, *Map) ==> as(result, *Map).Key != nil && as(result, *Map).Elem != nil && is(typ.Underlying(), *types.Map)
+//@   ensures is(result, *Pointer) ==> as(result, *Pointer).Elem != nil && is(typ.Underlying(), *types.Pointer)
+//@   ensures is(result, *Basic) ==> is(typ.Underlying(), *types.Basic) && as(result, *Basic).B == as(typ.Underlying(), *types.Basic)
+//@   ensures is(result, *Struct) ==> as(result, *Struct).Name == typ && is(typ.Underlying(), *types.Struct)
+//@   ensures is(result, *Enum) ==> has(ctx.enums, as(typ, *types.Named)) && result == ctx.enums[as(typ, *types.Named)]
+//@   loop members.1 index n
+//@   loop members.1 invariant tableOK(an)
+//@   loop members.1 invariant len(un.Members) == n && (forall k int :: 0 <= k && k < n ==> un.Members[k] != nil)
+//@   loop members.1 invariant isnil(un.Members) || (fresh(un.Members) && allocated(un.Members))
+
+
+// the walk over the import graph is a recursive closure (outside the verified subset): ASSUMED contract.
+// Keys are (non nil) named types, enums are real nodes. What the maps contain is the business of
+// fetchPkgEnums / fetchPkgUnions (C10, C11) and of the bounded harness of fetchEnumsAndUnions.
+//@ func fetchEnumsAndUnions
+//@   trusted
+//@   ensures forall N *types.Named :: has(result1, N) ==> result1[N] != nil
+//@   ensures forall N *types.Named :: has(result2, N) ==> is(N, *types.Named)
+
+// every struct node of the table gets its Implements list from setImplements (whose contract says what it holds)
+//@ func (*Analysis).populateTypes
+//@   props C11
+//@   requires an != nil
+//@   modifies *
+//@   ensures forall t types.Type :: has(an.Types, t) && is(an.Types[t], *Struct) ==> ghost("implementsSet", an.Types[t]) == 1
+//@   loop an.Source.1 invariant tableOK(an) && ctxOK(ctx)
+//@   loop an.Types.1 visited done
+//@   loop an.Types.1 invariant tableOK(an)
+//@   loop an.Types.1 invariant forall t types.Type :: done[t] && is(an.Types[t], *Struct) ==> ghost("implementsSet", an.Types[t]) == 1
